@@ -74,3 +74,13 @@ Theorem C08_command_loop_model_is_the_source : forall c ok s' r' unt,
   | r => Val (Some r, abs c')
   end.
 Proof. exact receive_until_step_agrees. Qed.
+
+(* and Client.send as regenerated from client.go: one write of the request frame - the port's output grows by exactly that
+   frame - or, when the write fails, nothing is written and the write's error is the cause; no other state of the client
+   is touched (the generated function has only the port's output as its state: an assignment to any other field is
+   reported by the translator). *)
+Theorem C08_send_model_is_the_source : forall m port,
+  g_Client_send None m port = Val (None, port ++ [m]) /\
+  (forall c, (3 <= length m)%nat -> g_Client_send (Some c) m port = Val (Some c, port)).
+Proof. exact send_agrees. Qed.
+Print Assumptions C08_send_model_is_the_source.
